@@ -9,6 +9,7 @@ namespace Life.C01
 /-- Phase ↔ automaton stage. -/
 def stageRel : Phase → Stage → Prop
   | .fresh, st => st = .init
+  | .cell, st => st = .init
   | .pre, st => st = .preOpen
   | .ready, st => st = .preOk
   | .postStart, st => st = .psOpen
@@ -35,13 +36,21 @@ theorem Aux.congr {a a' : Actor} {s : St} (h1 : a'.sigVal = a.sigVal) (h2 : a'.s
 /-! ### neutral events -/
 
 @[simp] theorem next_sendRet (s : St) (b : Bool) (m : Nat) (ok : Bool) : next s (.sendRet b m ok) = .ok s := rfl
-@[simp] theorem next_spawnRet (s : St) (r : SpawnRet) : next s (.spawnRet r) = .ok s := rfl
+theorem next_spawnRet (s : St) (r : SpawnRet) : ∃ s', next s (.spawnRet r) = .ok s' := by
+  cases r <;> exact ⟨_, rfl⟩
+@[simp] theorem next_spawnRet_ok (s : St) : next s (.spawnRet .ok) = .ok s := rfl
+@[simp] theorem next_spawnRet_registered (s : St) : next s (.spawnRet .registered) = .ok s := rfl
+theorem next_spawnRet_nolink_init (s : St) (h : s.stage = .init) : next s (.spawnRet .nolink) = .ok s := by
+  simp [next, h]
 @[simp] theorem next_emit (s : St) (p : Nat) (e : SupEv) : next s (.emit p e) = .ok s := rfl
 @[simp] theorem next_supArrive (s : St) (e : SupEv) : next s (.supArrive e) = .ok s := rfl
 @[simp] theorem next_supIs (s : St) (p : Option Nat) : next s (.supIs p) = .ok s := rfl
-@[simp] theorem next_aborted (s : St) : next s .aborted = .ok s := rfl
-@[simp] theorem next_dropped (s : St) : next s .dropped = .ok s := rfl
-@[simp] theorem next_join (s : St) (r : JoinRes) : next s (.join r) = .ok s := rfl
+theorem next_aborted (s : St) : next s .aborted = .ok (if s.stage.isOpen then s else { s with stage := .dead }) := rfl
+theorem next_aborted_open (s : St) (h : s.stage.isOpen = true) : next s .aborted = .ok s := by simp [next, h]
+theorem next_dropped_open (s : St) (h : s.stage.isOpen = true) : next s .dropped = .ok s := by simp [next, h]
+theorem next_dropped_closed (s : St) (h : s.stage.isOpen = false) :
+    next s .dropped = .ok { s with stage := .dead } := by simp [next, h]
+@[simp] theorem next_join (s : St) (r : JoinRes) : next s (.join r) = .ok { s with stage := .dead } := rfl
 @[simp] theorem next_fxJoin (s : St) (g : String) : next s (.fxJoin g) = .ok s := rfl
 @[simp] theorem next_fxReply (s : St) (k v : Nat) (b : Bool) : next s (.fxReply k v b) = .ok s := rfl
 @[simp] theorem next_fxForget (s : St) (k : Nat) (b : Bool) : next s (.fxForget k b) = .ok s := rfl
@@ -51,6 +60,9 @@ theorem Aux.congr {a a' : Actor} {s : St} (h1 : a'.sigVal = a.sigVal) (h2 : a'.s
 @[simp] theorem next_waitRet (s : St) (w : Nat) (b : Bool) : next s (.waitRet w b) = .ok s := rfl
 @[simp] theorem next_snap (s : St) (sn : Snap) : next s (.snap sn) = .ok s := rfl
 @[simp] theorem next_isLocal (s : St) : next s .isLocal = .ok s := rfl
+@[simp] theorem next_monFan (s : St) (r t : List Nat) (e : SupEv) : next s (.monFan r t e) = .ok s := rfl
+@[simp] theorem next_instant (s : St) : next s .instant = .ok s := rfl
+@[simp] theorem next_treeKill (s : St) : next s .treeKill = .ok { s with killed := true } := rfl
 @[simp] theorem next_stopRet (s : St) (b : Bool) (r : Reason) (ok : Bool) :
     next s (.stopRet b r ok) = .ok (if ok then { s with stopReq := true } else s) := by
   cases ok <;> rfl
@@ -68,16 +80,17 @@ theorem cleanup_acc (a : Actor) (e : Option SupEv) (s : St) :
   unfold cleanup
   split
   · simp
-  · cases e <;> cases hs : a.sup <;> simp [Actor.setStatus, hs, accepts_cons]
+  · cases e <;> cases hs : a.sup <;> cases hm : a.mons <;> simp [Actor.setStatus, hs, hm, notifyOuts, accepts_cons]
 
 theorem finish_sim (a : Actor) (e : SupEv) (s : St) : Sim next Inv s (finish a e) := by
-  refine ⟨s, ?_, ?_⟩
+  refine ⟨{ s with stage := .dead }, ?_, ?_⟩
   · simp [finish, accepts_append next _ (cleanup_acc a (some e) s).1, accepts_cons]
   · left; simp [finish, Actor.dropPorts]
 
 theorem failSpawn_sim (a : Actor) (r : SpawnRet) (s : St) : Sim next Inv s (failSpawn a r) := by
-  refine ⟨s, ?_, ?_⟩
-  · simp [failSpawn, accepts_append next _ (cleanup_acc a none s).1, accepts_cons]
+  obtain ⟨s', hs'⟩ := next_spawnRet s r
+  refine ⟨s', ?_, ?_⟩
+  · simp [failSpawn, accepts_append next _ (cleanup_acc a none s).1, accepts_cons, hs']
   · left; simp [failSpawn, Actor.dropPorts]
 
 theorem killedOutsideLoop_sim (a : Actor) (s : St) : Sim next Inv s (killedOutsideLoop a) := by
@@ -262,6 +275,7 @@ theorem runFx_sim (a : Actor) (s : St) (f : Fx) (hx : Aux a s) :
     split
     · exact ⟨s, by simp [accepts_cons], rfl, rfl, hx.congr (by rfl) (by rfl) (by rfl)⟩
     · exact ⟨s, by simp [accepts_cons], rfl, rfl, hx⟩
+  | spawnChild c => exact ⟨s, by simp [runFx, accepts_cons, next], rfl, rfl, hx⟩
 
 theorem runFxs_sim (fs : List Fx) (a : Actor) (s : St) (hx : Aux a s) :
     Sim next (FxRel a.phase s.stage) s (runFxs a fs) := by
@@ -281,6 +295,8 @@ theorem runFxs_sim (fs : List Fx) (a : Actor) (s : St) (hx : Aux a s) :
 def openStage : Cb → Stage
   | .preStart => .preOpen | .postStart => .psOpen | .handle => .hOpen .handle
   | .sup => .hOpen .sup | .postStop => .stopOpen
+
+theorem isOpen_openStage (cb : Cb) : (openStage cb).isOpen = true := by cases cb <;> rfl
 
 /-- The stage after `cb` returned `r`. -/
 def exitStage (cb : Cb) (r : Res) : Stage :=
@@ -360,7 +376,7 @@ theorem afterExit_sim (a : Actor) (s : St) (cb : Cb) (r : Res)
     subst this
     refine Sim.andThen next (R1 := fun a1 s1 => s1 = s ∧ Aux a1 s1) ?_ ?_
     · refine ⟨s, ?_, rfl, hx.congr (by rfl) (by rfl) (by rfl)⟩
-      cases hsup : a.sup <;> simp [Actor.setStatus, accepts_cons, hsup]
+      cases hsup : a.sup <;> cases hm : a.mons <;> simp [Actor.setStatus, accepts_cons, hsup, hm, notifyOuts]
     · rintro a1 s1 ⟨rfl, hx1⟩
       exact listen_sim a1 s1 (by simp [hst, exitStage]) hx1
   · rename_i hph
@@ -386,8 +402,9 @@ theorem afterPre_sim (a : Actor) (s : St) (supOk : Bool) (r : Res)
   · split
     · split
       · exact failSpawn_sim _ _ _
-      · refine ⟨s, by simp [accepts_cons], Or.inr ⟨?_, hx.congr (by rfl) (by rfl) (by rfl)⟩⟩
-        simpa [stageRel, exitStage] using hst
+      · refine ⟨s, by simp [accepts_cons], Or.inr ⟨?_, ?_⟩⟩
+        · simpa [stageRel, exitStage] using hst
+        · exact hx.congr (by simp) (by simp) (by simp)
     · refine ⟨s, by simp [accepts_cons], Or.inr ⟨?_, hx.congr (by rfl) (by rfl) (by rfl)⟩⟩
       simpa [stageRel, exitStage] using hst
 
@@ -457,10 +474,6 @@ theorem opPoll_sim (a : Actor) (s : St) (h : Inv a s) : Sim next Inv s (opPoll a
 
 /-! ### non-overlap, read off the automaton -/
 
-def Stage.isOpen : Stage → Bool
-  | .preOpen | .psOpen | .hOpen _ | .stopOpen => true
-  | _ => false
-
 theorem next_enter_isOpen {s s1 : St} {cb : Cb} {a : Arg} (h : next s (.enter cb a) = .ok s1) :
     s1.stage.isOpen = true := by
   simp only [next] at h
@@ -495,16 +508,63 @@ theorem opSpawn_sim (a : Actor) (s : St) (sup : Option Nat) (name : Option Strin
       split
       · split
         · split
-          · exact ⟨s, by simp [accepts_cons], Or.inr ⟨by rw [hph]; exact hs, hx⟩⟩
+          · exact ⟨s, by simp [accepts_cons, next_spawnRet_nolink_init s hinit], Or.inr ⟨by rw [hph]; exact hs, hx⟩⟩
           · exact ⟨{ s with stage := .preOpen }, by simp [accepts_cons, next, hinit], hnew _ rfl rfl rfl rfl⟩
         · exact ⟨{ s with stage := .preOpen }, by simp [accepts_cons, next, hinit], hnew _ rfl rfl rfl rfl⟩
       · exact ⟨{ s with stage := .preOpen }, by simp [accepts_cons, next, hinit], hnew _ rfl rfl rfl rfl⟩
+  · exact ⟨s, rfl, h⟩
+
+theorem beginPre_sim (a : Actor) (s : St) (hph : a.phase = .cell) (hinit : s.stage = .init) (hx : Aux a s) :
+    Sim next Inv s (beginPre a) := by
+  unfold beginPre
+  split
+  · refine Sim.andThen next (R1 := fun _ _ => True) ⟨s, by simp [handleSignal], trivial⟩ ?_
+    intro a1 s1 _
+    exact failSpawn_sim _ _ _
+  · exact ⟨{ s with stage := .preOpen }, by simp [accepts_cons, next, hinit],
+      Or.inr ⟨rfl, hx.kill, hx.stop, hx.drain⟩⟩
+
+theorem startInstant_sim (a : Actor) (s : St) (supOk : Bool) (hph : a.phase = .cell)
+    (hinit : s.stage = .init) (hx : Aux a s) : Sim next Inv s (startInstant a supOk) := by
+  unfold startInstant
+  split
+  · exact failSpawn_sim _ _ _
+  · simp only []
+    split
+    · split
+      · split
+        · exact failSpawn_sim _ _ _
+        · refine Sim.andThen next (R1 := fun a1 s1 => s1 = s ∧ a1.phase = .cell ∧ Aux a1 s)
+            ⟨s, by simp, rfl, by simpa using hph, hx.congr (by simp) (by simp) (by simp)⟩ ?_
+          rintro a1 s1 ⟨rfl, h1, h2⟩
+          exact beginPre_sim a1 s1 h1 hinit h2
+      · exact beginPre_sim _ s hph hinit (hx.congr (by rfl) (by rfl) (by rfl))
+    · exact beginPre_sim _ s hph hinit (hx.congr (by rfl) (by rfl) (by rfl))
+
+theorem opSpawnInstant_sim (a : Actor) (s : St) (sup : Option Nat) (name : Option String) (nameFree : Bool)
+    (isLocal : Bool) (h : Inv a s) : Sim next Inv s (opSpawnInstant a sup name nameFree isLocal) := by
+  unfold opSpawnInstant
+  split
+  · rename_i hph
+    split
+    · exact ⟨s, by simp [accepts_cons], h⟩
+    · rcases h with h | ⟨hs, hx⟩
+      · simp [hph] at h
+      · rw [hph] at hs
+        split
+        · exact ⟨s, by simp [accepts_cons], Or.inr ⟨hs, hx.congr (by rfl) (by rfl) (by rfl)⟩⟩
+        · exact ⟨s, by simp [accepts_cons], Or.inr ⟨hs, hx.congr (by rfl) (by rfl) (by rfl)⟩⟩
   · exact ⟨s, rfl, h⟩
 
 theorem opPollSpawn_sim (a : Actor) (s : St) (supOk : Bool) (h : Inv a s) :
     Sim next Inv s (opPollSpawn a supOk) := by
   unfold opPollSpawn
   split
+  · rename_i hph
+    rcases h with h | ⟨hs, hx⟩
+    · simp [hph] at h
+    · rw [hph] at hs
+      exact startInstant_sim a s supOk hph hs hx
   · rename_i hph
     rcases h with h | ⟨hs, hx⟩
     · simp [hph] at h
@@ -533,13 +593,24 @@ theorem opDropSpawn_sim (a : Actor) (s : St) (h : Inv a s) : Sim next Inv s (opD
     rcases h with h | ⟨hs, hx⟩
     · simp [hph] at h
     · rw [hph] at hs
+      have hinit : s.stage = .init := hs
+      refine ⟨{ s with stage := .dead }, ?_, Or.inl (by simp [Actor.dropPorts])⟩
+      simp only [andThen_snd, evs_append, evs_cons_ev, evs_cons_note, evs_nil]
+      rw [List.cons_append, List.nil_append,
+        accepts_cons_ok next _ (next_dropped_closed s (by rw [hinit]; rfl))]
+      rw [accepts_append next _ (cleanup_acc _ none _).1]
+      rfl
+  · rename_i hph
+    rcases h with h | ⟨hs, hx⟩
+    · simp [hph] at h
+    · rw [hph] at hs
       have hst : s.stage = openStage .preStart := hs
       refine ⟨{ s with stage := .dead }, ?_, Or.inl ?_⟩
-      · simp only [andThen_snd, evs_append, evs_cons_ev, evs_nil]
+      · simp only [andThen_snd, evs_append, evs_cons_ev, evs_nil, evs_ite_note, List.append_nil]
         rw [List.cons_append, List.cons_append, List.nil_append]
-        rw [accepts_cons_ok next _ (next_dropped s), accepts_cons_ok next _ (next_cancelled_open s _ hst)]
-        rw [accepts_append next _ (cleanup_acc _ none _).1]
-        rfl
+        rw [accepts_cons_ok next _ (next_dropped_open s (by rw [hst]; rfl)),
+          accepts_cons_ok next _ (next_cancelled_open s _ hst)]
+        exact (cleanup_acc _ none _).1
       · simp [Actor.dropPorts]
   · exact ⟨s, rfl, h⟩
 
@@ -551,11 +622,14 @@ theorem opAbort_sim (a : Actor) (s : St) (h : Inv a s) : Sim next Inv s (opAbort
     · simp [h, Phase.isTask] at htask
     · refine Sim.andThen next (R1 := fun _ _ => True) ?_ ?_
       · cases hcb : a.phase.openCb with
-        | none => exact ⟨s, by simp [accepts_cons], trivial⟩
+        | none => exact ⟨_, by simp [accepts_cons, next_aborted]; rfl, trivial⟩
         | some cb =>
-          exact ⟨{ s with stage := .dead }, by simp [accepts_cons, next_cancelled_open s cb (stage_of_open hs hcb)], trivial⟩
+          have hst := stage_of_open hs hcb
+          exact ⟨{ s with stage := .dead }, by
+            simp [accepts_cons, next_aborted_open s (by rw [hst]; exact isOpen_openStage cb),
+              next_cancelled_open s cb hst], trivial⟩
       · intro a1 s1 _
-        refine ⟨s1, ?_, Or.inl (by simp [Actor.dropPorts])⟩
+        refine ⟨{ s1 with stage := .dead }, ?_, Or.inl (by simp [Actor.dropPorts])⟩
         simp only [andThen_snd, evs_append, evs_cons_ev, evs_nil]
         rw [accepts_append next _ (cleanup_acc _ _ _).1]
         simp [accepts_cons]
@@ -581,19 +655,31 @@ theorem apiKill_msgQ (a : Actor) : (apiKill a).1.msgQ = a.msgQ := by
 theorem opTreeTaken_sim (a : Actor) (s : St) (h : Inv a s) : Sim next Inv s (opTreeTaken a) := by
   unfold opTreeTaken
   simp only []
-  refine ⟨s, by simp, ?_⟩
-  rcases h with h | ⟨hs, hx⟩
-  · left
-    split
-    · simpa [apiKill_phase] using h
-    · simpa using h
-  · right
-    split
-    · refine ⟨by simpa [apiKill_phase] using hs, ?_, ?_, ?_⟩
-      · intro hk; exact apiKill_sigVal_mono _ (hx.kill hk)
-      · simpa [apiKill_stopVal] using hx.stop
-      · simpa [apiKill_msgQ] using hx.drain
-    · exact ⟨by simpa using hs, by simpa using hx.kill, by simpa using hx.stop, by simpa using hx.drain⟩
+  split
+  · cases hk : (apiKill { a with sup := none }).2 with
+    | false =>
+      refine ⟨s, by simp [hk], ?_⟩
+      rcases h with h | ⟨hs, hx⟩
+      · left; simpa [apiKill_phase] using h
+      · right
+        refine ⟨by simpa [apiKill_phase] using hs, ?_, ?_, ?_⟩
+        · intro hk'; exact apiKill_sigVal_mono _ (hx.kill hk')
+        · simpa [apiKill_stopVal] using hx.stop
+        · simpa [apiKill_msgQ] using hx.drain
+    | true =>
+      refine ⟨{ s with killed := true }, by simp [hk, accepts_cons], ?_⟩
+      rcases h with h | ⟨hs, hx⟩
+      · left; simpa [apiKill_phase] using h
+      · right
+        refine ⟨by simpa [apiKill_phase] using hs, ?_, ?_, ?_⟩
+        · intro _; exact apiKill_ok_sigVal _ hk
+        · simpa [apiKill_stopVal] using hx.stop
+        · simpa [apiKill_msgQ] using hx.drain
+  · refine ⟨s, by simp, ?_⟩
+    rcases h with h | ⟨hs, hx⟩
+    · left; simpa using h
+    · right
+      exact ⟨by simpa using hs, by simpa using hx.kill, by simpa using hx.stop, by simpa using hx.drain⟩
 
 theorem Inv_api {a a' : Actor} {s s' : St} (hp : a'.phase = a.phase) (hs : s'.stage = s.stage)
     (hx : Aux a s → Aux a' s') (h : Inv a s) : Inv a' s' := by
@@ -620,7 +706,20 @@ theorem envOp_sim (a : Actor) (s : St) (op : AOp) (h : Inv a s) : Sim next Inv s
     · exact ⟨s, by simp [accepts_cons], h.congr (by rfl) (by rfl) (by rfl) (by rfl)⟩
     · exact ⟨s, by simp [accepts_cons], h⟩
   | treeTaken => exact opTreeTaken_sim a s h
+  | link p ok =>
+    simp only [Actor.envOp, opLink]
+    split
+    · exact ⟨s, rfl, h⟩
+    · exact ⟨s, by simp, h.congr (by rfl) (by rfl) (by rfl) (by rfl)⟩
+  | unlink p =>
+    simp only [Actor.envOp, opUnlink]
+    split
+    · exact ⟨s, by simp, h.congr (by rfl) (by rfl) (by rfl) (by rfl)⟩
+    · exact ⟨s, rfl, h⟩
   | kidAdd c => exact ⟨s, rfl, h.congr (by rfl) (by rfl) (by rfl) (by rfl)⟩
+  | monAdd m => exact ⟨s, rfl, h.congr (by rfl) (by rfl) (by rfl) (by rfl)⟩
+  | monDel m => exact ⟨s, rfl, h.congr (by rfl) (by rfl) (by rfl) (by rfl)⟩
+  | monDrop m => exact ⟨s, by simp [Actor.envOp], h.congr (by rfl) (by rfl) (by rfl) (by rfl)⟩
   | kidDel c => exact ⟨s, rfl, h.congr (by rfl) (by rfl) (by rfl) (by rfl)⟩
   | call k =>
     refine ⟨s, by simp [Actor.envOp, accepts_cons], ?_⟩
@@ -643,6 +742,7 @@ theorem envOp_sim (a : Actor) (s : St) (op : AOp) (h : Inv a s) : Sim next Inv s
 theorem stepCore_sim (a : Actor) (s : St) (op : AOp) (h : Inv a s) : Sim next Inv s (a.stepCore op) := by
   cases op with
   | spawn sup name nameFree isLocal supOk => exact opSpawn_sim a s sup name nameFree isLocal supOk h
+  | spawnInstant sup name nameFree isLocal => exact opSpawnInstant_sim a s sup name nameFree isLocal h
   | pollSpawn supOk => exact opPollSpawn_sim a s supOk h
   | dropSpawn => exact opDropSpawn_sim a s h
   | poll => exact Sim.pollMark next next_polled (opPoll_sim a s h)
